@@ -7,9 +7,11 @@
 
 mod engines {
 	pub mod encoding;
+	pub mod msgpack;
 }
 mod props {
 	pub mod c07;
+	pub mod c18;
 }
 mod out;
 mod util;
@@ -33,6 +35,10 @@ fn main() {
 			"C07" => {
 				engines::encoding::run(&mut out, &mut rng.fork(), thorough);
 				props::c07::run(&mut out, &mut rng.fork(), thorough);
+			}
+			"C18" => {
+				engines::msgpack::run_size(&mut out, &mut rng.fork(), thorough);
+				props::c18::run(&mut out, &mut rng.fork(), thorough);
 			}
 			_ => {
 				eprintln!("unknown property {prop}");
